@@ -110,6 +110,8 @@ type Server struct {
 	WithVerify bool
 	// AuthHeader: if non-empty, actions carry this header name with a unique value.
 	ActionHeaders bool
+	// ActionContentType: with ActionHeaders, upload actions also prescribe this Content-Type.
+	ActionContentType string
 	// LocksUnsupported: answer every locks endpoint with this status (404/501) when non-zero.
 	LocksStatus int
 	// PageSize for lock lists (0 = no pagination).
@@ -395,6 +397,9 @@ func (s *Server) batch(req *Request, f *Fault, jsonAnswer func(int, any)) {
 			of := &Offer{Token: tok, Repo: req.Repo, Oid: oid, Op: kind, Href: href, Batch: bn}
 			if s.ActionHeaders {
 				of.Header = map[string]string{"X-Verif-Action": "tok-" + tok}
+				if s.ActionContentType != "" && kind == "upload" {
+					of.Header["Content-Type"] = s.ActionContentType
+				}
 				a["header"] = of.Header
 			}
 			if f.ExpiredAct[oid] {
